@@ -118,6 +118,8 @@ type Runner struct {
 	// cross-check of the in-process pipeline (fast mode) against the ferret binary
 	CrossChecked, CrossMismatch int64
 	CrossNotes                  []string
+	// Prefilter: see Observe.
+	Prefilter bool
 }
 
 // CrossEvery: every CrossEvery-th pack is compiled both in-process and by the binary.
@@ -222,9 +224,27 @@ func (r *Runner) runOne(src string, target string, real bool) Obs {
 // alone, so that a reported observation that disagrees is always a single-program one.
 func (r *Runner) Observe(cases []*Case, target string, want func(i int) *Obs) []Obs {
 	res := make([]Obs, len(cases))
+	fast := r.R.Fast && target == "native"
+	// Prefilter: the front end alone (in-process, no process is started) decides which cases
+	// are rejected before anything is packed, so that a pack is not taken apart case by case
+	// because some of its members do not compile. A case the front end rejects is reported as
+	// rejected; with an expectation (want) it is re-decided by the ferret binary first.
+	rejected := make([]bool, len(cases))
+	if fast && r.Prefilter {
+		r.R.FrontEnd(len(cases), func(i int) string { return fl.Render(cases[i].P) }, func(i int, ok bool, msg string) {
+			if ok {
+				return
+			}
+			rejected[i] = true
+			res[i] = Obs{Reject: CanonErr(msg)}
+		})
+	}
 	var packs [][]int
 	var cur []int
 	for i, k := range cases {
+		if rejected[i] {
+			continue
+		}
 		if k.NoPack || k.Want.Term != "exit0" {
 			packs = append(packs, []int{i})
 			continue
@@ -238,7 +258,6 @@ func (r *Runner) Observe(cases []*Case, target string, want func(i int) *Obs) []
 	if len(cur) > 0 {
 		packs = append(packs, cur)
 	}
-	fast := r.R.Fast && target == "native"
 	// single observes one case as a program of its own. In fast mode the in-process result is
 	// kept only if it is what the caller expects (or the caller has no expectation and will
 	// re-observe differences itself: Alone stays false); everything else comes from the binary.
@@ -322,6 +341,19 @@ func (r *Runner) Observe(cases []*Case, target string, want func(i int) *Obs) []
 		}
 	}
 	vl.ParDo(len(packs), 16, func(pi int) { observe(packs[pi], true, pi) })
+	if want != nil {
+		var rej []int
+		for i := range cases {
+			if rejected[i] {
+				rej = append(rej, i)
+			}
+		}
+		vl.ParDo(len(rej), 8, func(j int) {
+			o := r.runOne(fl.Render(cases[rej[j]].P), target, true)
+			o.Alone = true
+			res[rej[j]] = o
+		})
+	}
 	return res
 }
 
